@@ -22,6 +22,7 @@ type TxnSpec struct {
 	Commit bool   `json:"commit"`
 	Form   int    `json:"form,omitempty"`   // forupd: 1 = the table is the joined (second) table of the FOR UPDATE query
 	Noop   int    `json:"noop,omitempty"`   // forupd / inc: a data-changing statement that matches no record follows the first statement (1 UPDATE, 2 DELETE, 3 INSERT ... SELECT of nothing)
+	Peek   int    `json:"peek,omitempty"`   // forupd / inc / selinc: while the table is held, it is also read through another access path (1..6)
 	Table2 int    `json:"table2,omitempty"` // inc2: the second table of the transaction
 	Key2   int    `json:"key2,omitempty"`
 }
@@ -62,6 +63,21 @@ func txnProgram(j int, tx TxnSpec, uniq int) []string {
 	sel := func(k int, suffix string) []string {
 		return []string{fmt.Sprintf("ECHO '@Q %d.%d';", j, k), fmt.Sprintf("SELECT id, n FROM %s%s;", t, suffix)}
 	}
+	// while the transaction holds the table it also reads it through another access path: the table stays held
+	peek := func() []string {
+		if tx.Peek == 0 {
+			return nil
+		}
+		q := []string{
+			fmt.Sprintf("SELECT COUNT(*) FROM CSV_INLINE(',', `%s.csv`);", t),
+			fmt.Sprintf("SELECT COUNT(*) FROM CSV(',', `%s.csv`);", t),
+			fmt.Sprintf("SHOW FIELDS FROM %s;", t),
+			fmt.Sprintf("SELECT COUNT(*) FROM `./%s.csv`;", t),
+			fmt.Sprintf("DECLARE pk%d CURSOR FOR SELECT id FROM %s; OPEN pk%d; CLOSE pk%d; DISPOSE CURSOR pk%d;", j, t, j, j, j),
+			fmt.Sprintf("SELECT (SELECT COUNT(*) FROM %s) FROM one;", t),
+		}[(tx.Peek-1)%6]
+		return []string{fmt.Sprintf("ECHO '@P %d';", j), q}
+	}
 	var s []string
 	s = append(s, fmt.Sprintf("ECHO '@B %d';", j))
 	switch tx.Kind {
@@ -89,6 +105,7 @@ func txnProgram(j int, tx TxnSpec, uniq int) []string {
 		default:
 			s = append(s, fmt.Sprintf("UPDATE %s SET n = n + 1 WHERE id = %d;", t, tx.Key))
 		}
+		s = append(s, peek()...)
 		s = append(s, sel(2, "")...)
 	case "inc2":
 		// one transaction over two tables (processes take them in either order: the lock-order cycle is
@@ -103,6 +120,7 @@ func txnProgram(j int, tx TxnSpec, uniq int) []string {
 		s = append(s, sel(1, "")...)
 		s = append(s, fmt.Sprintf("ECHO '@M %d';", j))
 		s = append(s, fmt.Sprintf("UPDATE %s SET n = n + 1 WHERE id = %d;", t, tx.Key))
+		s = append(s, peek()...)
 		s = append(s, sel(2, "")...)
 	case "forupd":
 		if tx.Form == 1 {
@@ -112,6 +130,7 @@ func txnProgram(j int, tx TxnSpec, uniq int) []string {
 		} else {
 			s = append(s, sel(1, " FOR UPDATE")...)
 		}
+		s = append(s, peek()...)
 		if tx.Noop > 0 {
 			// the table stays held although this statement changes nothing
 			s = append(s, []string{fmt.Sprintf("UPDATE %s SET n = n + 1 WHERE id = 99999;", t), fmt.Sprintf("DELETE FROM %s WHERE id = 99999;", t), fmt.Sprintf("INSERT INTO %s SELECT id, n FROM %s WHERE id = 99999;", t, t)}[tx.Noop-1])
@@ -249,6 +268,9 @@ func genCounterScenario(prop string, seed uint64, tier string, maxProcs int) (*S
 			}
 			if tx.Kind == "ins" && r.Bool(0.3) {
 				tx.Form = 1
+			}
+			if r3 := Sub(seed, fmt.Sprintf("c09-peek-%d-%d", p, j)); prop == "C09" && (tx.Kind == "inc" || tx.Kind == "selinc" || tx.Kind == "forupd") && r3.Bool(0.3) {
+				tx.Peek = 1 + r3.Intn(6)
 			}
 			if r2 := Sub(seed, fmt.Sprintf("c09-inc2-%d-%d", p, j)); prop == "C09" && ntab == 2 && tx.Kind == "inc" && tx.Form == 0 && r2.Bool(0.6) {
 				tx.Kind, tx.Table2 = "inc2", 1-tb
